@@ -21,7 +21,7 @@ PROPERTY = 'C08'
 LEVEL = 'model_checking'
 BOUNDS = {
     'quick': 'L<=3 (infinite: unit cell 2, windows of <=4 sites over <=2 cells), chi<=2 (one chi=3 bond for charge conserving '
-             'sites), SpinHalfSite(None,Sz), FermionSite(None,N), finite/segment/infinite, stored forms B and mixed A/B/Th; '
+             'sites), SpinHalfSite(None,Sz), FermionSite(None,N,parity), finite/segment/infinite, stored forms B and mixed A/B/Th; '
              'every routine x option combination listed in CASES; sample_measurements windows of length 1..L',
     'thorough': 'additionally L=4 with chi pattern 1,2,3,2,1, SpinHalfFermionSite(None; N,Sz), spin+fermion mixed chains, '
                 'infinite unit cell 3, 4-operator fermionic terms',
@@ -850,7 +850,7 @@ def CASES(tier, seed):
             meas_ops = ['Nu', 'Ntot']
         else:
             meas_ops = None
-        if meas_ops is not None and kind != 'spinP':
+        if meas_ops is not None and kind != 'spinP' and (thorough or bc == 'finite' or kind not in ('spin', 'ferm')):
             owins = [(0, 1), (1, 2)] if (bc == 'infinite' or L >= 3) else [(0, 1), (1, 1)]
             for first, last in owins:
                 for ca in ((True, False) if first > 0 else (True, )):
